@@ -86,7 +86,7 @@ func describe(p *Policy) string {
 func when(e *Expr) *Policy { return &Policy{Conds: []Cond{{When: true, Body: e}}} }
 
 var allModes = []PrintMode{FullParens, MinParens}
-var allLayouts = []Layout{LayoutTight, LayoutSpaces, LayoutComments, LayoutCRLFTabs}
+var allLayouts = []Layout{LayoutTight, LayoutSpaces, LayoutComments, LayoutCRLFTabs, LayoutEmptyComments, LayoutFormFeed}
 
 func leaves() []*Expr {
 	return []*Expr{Var("principal"), L(Long(1)), L(Str("s")), L(Long(-3)), L(Entity("NS::U", "e")), Var("context"), L(Bool(true)), L(Long(2))}
